@@ -409,6 +409,11 @@ def c09(sc, ctx, ex, ob, V, P):
             for (pid, pend, member) in ob.pred_ends[a]:
                 if pend is None:
                     continue
+                if not member:
+                    # a dated task of another project: a user-fixed date, which the property's quantifier leaves out - a backward
+                    # pass places tasks as late as the deadline allows and cannot move them later still to wait for it
+                    P('outside-predecessor-not-judged')
+                    continue
                 if a != tid:
                     P('inherited-dependency')
                 if pend > o.start:
